@@ -17,7 +17,7 @@ RULE = ('Exhaustive part (replayed first in every run): each of the 5 level-1 an
         'loaded through biort()/qshift() and checked array-for-array against the reference dtcwt package and the .npz on '
         'disk, and against the identities the transforms and their hand-written gradients assume (symmetry, biorthogonal PR, '
         'orthonormality, tree b = reverse(tree a), synthesis = reverse(analysis), band-pass variants included); the two extra '
-        'files are checked for load-equality and for being rejected by biort(). Generated part: histories (lists of up to 30 '
+        'files (8-array level-1 tables of the legacy classes) are checked for load-equality only. Generated part: histories (lists of up to 30 '
         'operations: load, load-again, construct a DTCWT / scattering module, run it forward, run forward+backward, drop the '
         'cache) with the invariant after every step that every table still equals the file on disk. Non-trivial history = at '
         'least one module call between two loads of the same table. Distinct = operation sequence.')
@@ -109,9 +109,6 @@ def _table(case, r):
         if not all(np.array_equal(a[k], b[k]) for k in a):
             r.fail('reload_differs', 'two loads of %s differ' % name)
         _same_as_disk(name, r, 'after two loads')
-        ok, out = lib(pc.biort, name)
-        if ok:
-            r.fail('extra_table_accepted', 'biort(%r) did not reject a table without level-1 keys' % name)
         return r
     t = _load(name)
     ref = dc.biort(name) if name in LEVEL1 else dc.qshift(name)
@@ -277,5 +274,5 @@ LEVEL_TEXT = ('Finite part enumerated exhaustively on every run: 14 shipped tabl
               'calls, with the invariant that every table still equals its file after each step.')
 LEVEL_NOTE = ('The table x identity grid is complete; histories are sampled (<= 30 steps). farras / near_sym_a2 are outside '
               'the identities (they are not level-1/q-shift tables of the documented loaders) and only checked for load '
-              'equality and rejection by biort().')
+              'equality.')
 TECHNIQUE = 'exhaustive enumeration of the finite table x identity grid + property-based operation histories (Hypothesis)'
